@@ -469,7 +469,9 @@ class RunBundler:
 
         self._monitor_params[obj] = emit_event, kwargs
         # TODO: deprecate **kwargs when Ophyd.v2 is available
-        obj.subscribe(emit_event, **kwargs)
+        if not getattr(self, "_monitors_suspended", False):
+            # (while a pause or suspension has the run's monitors unsubscribed, `restore_monitors` subscribes this one with the others)
+            obj.subscribe(emit_event, **kwargs)
 
     def record_interruption(self, content):
         """
